@@ -185,9 +185,15 @@ func gen(t *rapid.T) Case {
 		}
 	}
 	c.Time = rapid.Bool().Draw(t, "time")
+	lastNear := -1
 	q := func(lbl string) vkit.P2 {
 		if rapid.Bool().Draw(t, lbl+"near") {
-			p := c.Nodes[rapid.IntRange(0, n-1).Draw(t, lbl+"node")]
+			k := rapid.IntRange(0, n-1).Draw(t, lbl+"node")
+			if k == lastNear && n > 1 && rapid.IntRange(0, 3).Draw(t, lbl+"samenode") > 0 {
+				k = (k + 1 + rapid.IntRange(0, n-2).Draw(t, lbl+"othernode")) % n // mostly two different nodes: a route of no links is a trivial case
+			}
+			lastNear = k
+			p := c.Nodes[k]
 			return vkit.MkP(float64(p[0])+rapid.Float64Range(-0.9, 0.9).Draw(t, lbl+"dx"), float64(p[1])+rapid.Float64Range(-0.9, 0.9).Draw(t, lbl+"dy"))
 		}
 		return vkit.MkP(sx*rapid.Float64Range(5, float64(15+2*w)).Draw(t, lbl+"x"), sy*rapid.Float64Range(5, float64(15+2*w)).Draw(t, lbl+"y"))
